@@ -163,6 +163,20 @@ int main(void) {
             m2 = gss_unwrap(&min, c, &wb, &o, &conf, &q);
             printf("{\"rc\":0,\"mic\":%u,\"unwrap\":%u,", (unsigned)m1, (unsigned)m2); puthex("plain", GSS_ERROR(m2) ? (unsigned char *)"" : o.value, GSS_ERROR(m2) ? 0 : o.length);
             printf(",\"out\":\"\"}\n");
+        } else if (!strcmp(tok[0], "gssaccept") && nt == 2) {
+            /* gssaccept <token> : a fresh acceptor (keytab KRB5_KTNAME, any principal in it) is given an initial context token (SPNEGO or raw
+             * Kerberos); prints whether it was accepted, the client's name and the service principal the ticket was issued for */
+            unsigned char *t; int n = unhex(tok[1], &t); gss_buffer_desc in = {n, t}, outb = {0, NULL}, cn = {0, NULL}, sn = {0, NULL};
+            gss_ctx_id_t c = GSS_C_NO_CONTEXT; gss_name_t client = GSS_C_NO_NAME, targ = GSS_C_NO_NAME; OM_uint32 min = 0, maj, m2;
+            maj = gss_accept_sec_context(&min, &c, GSS_C_NO_CREDENTIAL, &in, GSS_C_NO_CHANNEL_BINDINGS, &client, NULL, &outb, NULL, NULL, NULL);
+            if (!GSS_ERROR(maj) && client != GSS_C_NO_NAME) gss_display_name(&m2, client, &cn, NULL);
+            if (!GSS_ERROR(maj) && c != GSS_C_NO_CONTEXT && !GSS_ERROR(gss_inquire_context(&m2, c, NULL, &targ, NULL, NULL, NULL, NULL, NULL)) && targ != GSS_C_NO_NAME) gss_display_name(&m2, targ, &sn, NULL);
+            printf("{\"rc\":0,\"major\":%u,\"minor\":%u,\"complete\":%s,\"client\":\"", (unsigned)maj, (unsigned)min, maj == GSS_S_COMPLETE ? "true" : "false");
+            for (size_t i = 0; i < cn.length; i++) { char ch = ((char *)cn.value)[i]; if (ch != '"' && ch != '\\' && (unsigned char)ch >= 32) putchar(ch); }
+            printf("\",\"service\":\"");
+            for (size_t i = 0; i < sn.length; i++) { char ch = ((char *)sn.value)[i]; if (ch != '"' && ch != '\\' && (unsigned char)ch >= 32) putchar(ch); }
+            printf("\",\"out\":\"\"}\n");
+            if (c != GSS_C_NO_CONTEXT) gss_delete_sec_context(&m2, &c, GSS_C_NO_BUFFER);
         } else if (!strcmp(tok[0], "pac") && nt == 4) {
             /* pac <PAC> <etype of the key> <key> : parse the PAC and verify its server signature with the service key */
             unsigned char *pb, *kb; int np = unhex(tok[1], &pb), nk = unhex(tok[3], &kb);
